@@ -30,6 +30,13 @@ def generate(rnd, tier, index=0):
     regime = rnd.choice(["exact", "float"])
     cfg, spare = gen.gen_cfg(rnd, with_np=rnd.random() < 0.8, scale=True)
     d = rnd.randint(1, 4)
+    if regime == "float" and cfg["np"] and cfg["np"][0] in ("Radius", "KNearest") and rnd.random() < 0.5:
+        # metrics whose parameters scipy derives from the rows handed to ONE cdist call (seuclidean, mahalanobis) and a few
+        # other supported ones: the distance of a query row must not depend on which other rows share its worker chunk
+        cfg["np"][1]["metric"] = rnd.choice(["seuclidean", "mahalanobis", "cosine", "canberra", "braycurtis", "correlation"]
+                                            if d >= 2 else ["seuclidean", "canberra"])
+        if cfg["np"][0] == "Radius":
+            cfg["np"][1]["radius"] = rnd.choice([0.2, 0.5, 1.0, 2.0, 4.0])
     par = {"n_jobs": rnd.choice([2, 3, 5, -1, -2, 64]),
            "backend": rnd.choice([None, "threading", "loky", "multiprocessing"])}
 
@@ -114,7 +121,12 @@ def _decomposition(P, op, ctx, step):
         return None     # the query itself fails for every schedule alike: nothing to decompose
     per_row = []
     for i in range(len(Q)):
-        per_row += copy.deepcopy(P.mab)._imp._predict_contexts(Q[i:i + 1], flag, seeds[i:i + 1], i)
+        try:
+            per_row += copy.deepcopy(P.mab)._imp._predict_contexts(Q[i:i + 1], flag, seeds[i:i + 1], i)
+        except Exception as e:   # noqa: the whole batch was answered, the same row alone is not
+            ctx.fired("probe.decomposition_checked")
+            return ("decomposition-shape-differ", {"diff": "row %d alone raises %s, inside the whole batch it is answered"
+                                                   % (i, type(e).__name__)})
     ctx.fired("probe.decomposition_checked")
     ctx.fired("oracle.comparisons")
     c = compare_results(("ok", list(whole)), ("ok", list(per_row)))
